@@ -75,7 +75,7 @@ def install(case):
         fx.install_ktables(dict((mol, t[..., None] * gm[None, None, None, :]) for mol, t in tabs.items()),
                            [0.2, 0.5, 0.3], WN, TG, PG)
     cias = {}
-    for j, pair in enumerate(['H2-H2', 'H2-He']):
+    for j, pair in enumerate(['H2-H2', 'H2-He', 'H2-CH4']):
         cias[pair] = fx.rng('c03cia', pair).uniform(0.5, 1.5, size=(3, 4)) * 1e-55 * (10 ** j)
         CIACache().add_cia(fx.TinyCIA(pair, WN, CIA_T, cias[pair]))
     return tabs, cias
@@ -110,6 +110,7 @@ def spec_of(case, order, drop=None, full_order=None):
         gases += [['H', ['const', 1e-3]], ['e-', ['const', 1e-7]]]
     spec = {'kind': 'transmission', 'N': case['N'], 'T': case.get('T', ['dec']), 'gases': gases,
             'contribs': [contrib_spec(c, case['N'], case.get('ciavia', 'ctor')) for c in order]}
+
     if case.get('chem') == 'file-partial':
         # the same species from a tabulated composition that lists 60 % of the atmosphere only
         names = [m_ for m_ in MOLS if m_ in case['species'] and m_ != drop]
@@ -434,6 +435,43 @@ def twin_fn(case):
 
 
 
+def ciaactive_fn(case):
+    """A collision pair one partner of which is an absorbing (cross-section carrying) gas of the atmosphere: it is a
+    component like any other - present, weighted by both partners' mixing ratios, part of the product."""
+    r = core.R(case)
+    base = dict((k, v[0]) for k, v in DIMS.items() if k != 'order')
+    base.update(N=case['N'], mag=case['mag'], shape='const', abund=[1e-4, case['ch4'], 1e-5])
+    fx.reset_caches()
+    tabs, cias = install(base)
+    sp = spec_of(base, case['order'])
+    for c_ in sp['contribs']:
+        if isinstance(c_, list) and c_[0] == 'cia':
+            c_[1] = ['H2-H2', 'H2-CH4', 'H2-He']
+    m = fx.build_model(sp)
+    _, d, t, _ = m.model()
+    _, cd = m.model_contrib()
+    _, fd = m.model_full_contrib()
+    comps = fd.get('CIA', [])
+    names = [c_[0] for c_ in comps]
+    r.check(sorted(names) == ['H2-CH4', 'H2-H2', 'H2-He'], 'component-set', 'cia-active-partner/component-set', got=names)
+    T = np.asarray(m.temperatureProfile, float)
+    N = m.nLayers
+    cia_src = [c_ for c_ in m.contribution_list if type(c_).__name__ == 'CIAContribution'][0]
+    for name, sig in cia_src.prepare_each(m, np.array(WN)):
+        sig = np.array(sig, float)
+        a, b = name.split('-')
+        chi = np.asarray(m.chemistry.get_gas_mix_profile(a), float) * np.asarray(m.chemistry.get_gas_mix_profile(b), float)
+        ref = np.array([fx.cia_ref(cias[name], CIA_T, T[k]) * chi[k] for k in range(N)])
+        r.eq(sig, ref, 'component-weighted-opacity', 'cia-active-partner/component', component=name, atol=1e-300)
+    if comps and 'CIA' in cd:
+        r.eq(np.asarray(cd['CIA'][1], float), np.prod([np.asarray(c_[2], float) for c_ in comps], axis=0),
+             'product-over-components', 'cia-active-partner/product', atol=1e-15)
+    r.observe(np.asarray(t, float))
+    r.nontrivial = True
+    return r
+
+
+
 def explore(ctx):
     import json
     dims = dict(DIMS)
@@ -463,3 +501,6 @@ def explore(ctx):
           for oth in ([], ['abs'], ['abs', 'ray']) for fs in ('others', 'pair') for n_ in (3, 5)
           for mg in ('tau1', 'thin') if not (fs == 'pair' and not oth)]
     ctx.run_cases('twin_fn', tw, phase='two-of-a-kind')
+    ca = [{'N': n_, 'mag': mg, 'ch4': ab, 'order': od} for n_ in (3, 5) for mg in ('tau1', 'thin') for ab in (3e-5, 1e-2, 0.0)
+          for od in (['abs', 'cia'], ['cia'], ['cia', 'abs', 'ray'])]
+    ctx.run_cases('ciaactive_fn', ca, phase='cia-active-partner')
